@@ -303,6 +303,22 @@ fn judge_on(sc: &Scenario, build: Build, st: &mut Option<&mut Stats>) -> Option<
                     return None;
                 }
             };
+            if build != class_build {
+                // The line must be in the class for the build being judged as well: its parser
+                // may be in another state (it abandons groups that exceed its capacity) and may
+                // *accept* what std rejects there - e.g. the irregular "1 of 0" after an
+                // abandoned group - which is then no rejected line at all (that divergence is
+                // C18's business).
+                let (kb, _) = exec(build, sc.nodes, &kops, |_, _| true);
+                let in_class = match kb.last().map(|(_, o)| o) {
+                    Some(Outcome::ErrNmea(_)) | Some(Outcome::ErrChecksum { .. }) => true,
+                    Some(Outcome::Complete(s, _)) => s.n == 1,
+                    _ => false,
+                };
+                if !in_class {
+                    return None;
+                }
+            }
             let (a, a_states) = exec(build, sc.nodes, &sc.ops, |_, _| true);
             let (b, b_states) = exec(build, sc.nodes, &sc.ops, |i, _| i != p);
             if let Some(st) = st.as_deref_mut() {
